@@ -4,6 +4,8 @@ import BlockCiphers.Proofs.Rc5Spec
 import BlockCiphers.Proofs.SpeckKeys
 import BlockCiphers.Proofs.ThreefishSpec
 import BlockCiphers.Proofs.Threefish
+import BlockCiphers.Proofs.GenFuncsGift
+import BlockCiphers.Proofs.GenFuncsThreefish
 /-
 C10 — RC5, Speck, Threefish and GIFT-128 conform for every parameterisation
 GENERATED statement file (tools/gen_thm.py): every theorem below restates, verbatim, a theorem of a Proofs/ module
@@ -11,6 +13,223 @@ and is proved by applying it.  ONLY property theorems and non-vacuity examples l
 RC5, Speck, Threefish, GIFT-128 (fixsliced implementation = the CHES 2017 bit-permutation specification, all keys and blocks): full.
 Every constant table of the four crates as it is in /repo now = the table of the model (GenTables).
 -/
+
+namespace BC.GenFuncs.Gift
+open BC.Gen.Fn
+theorem C10.src_gift_byte_ror_2_eq (x : BitVec 32) :
+    gift_byte_ror_2 x = BC.Gift.byteRor2 x :=
+  _root_.BC.GenFuncs.Gift.byte_ror_2_eq x
+end BC.GenFuncs.Gift
+
+namespace BC.GenFuncs.Gift
+open BC.Gen.Fn
+theorem C10.src_gift_byte_ror_4_eq (x : BitVec 32) :
+    gift_byte_ror_4 x = BC.Gift.byteRor4 x :=
+  _root_.BC.GenFuncs.Gift.byte_ror_4_eq x
+end BC.GenFuncs.Gift
+
+namespace BC.GenFuncs.Gift
+open BC.Gen.Fn
+theorem C10.src_gift_byte_ror_6_eq (x : BitVec 32) :
+    gift_byte_ror_6 x = BC.Gift.byteRor6 x :=
+  _root_.BC.GenFuncs.Gift.byte_ror_6_eq x
+end BC.GenFuncs.Gift
+
+namespace BC.GenFuncs.Gift
+open BC.Gen.Fn
+theorem C10.src_gift_half_ror_4_eq (x : BitVec 32) :
+    gift_half_ror_4 x = BC.Gift.halfRor4 x :=
+  _root_.BC.GenFuncs.Gift.half_ror_4_eq x
+end BC.GenFuncs.Gift
+
+namespace BC.GenFuncs.Gift
+open BC.Gen.Fn
+theorem C10.src_gift_half_ror_8_eq (x : BitVec 32) :
+    gift_half_ror_8 x = BC.Gift.halfRor8 x :=
+  _root_.BC.GenFuncs.Gift.half_ror_8_eq x
+end BC.GenFuncs.Gift
+
+namespace BC.GenFuncs.Gift
+open BC.Gen.Fn
+theorem C10.src_gift_half_ror_12_eq (x : BitVec 32) :
+    gift_half_ror_12 x = BC.Gift.halfRor12 x :=
+  _root_.BC.GenFuncs.Gift.half_ror_12_eq x
+end BC.GenFuncs.Gift
+
+namespace BC.GenFuncs.Gift
+open BC.Gen.Fn
+theorem C10.src_gift_nibble_ror_1_eq (x : BitVec 32) :
+    gift_nibble_ror_1 x = BC.Gift.nibbleRor1 x :=
+  _root_.BC.GenFuncs.Gift.nibble_ror_1_eq x
+end BC.GenFuncs.Gift
+
+namespace BC.GenFuncs.Gift
+open BC.Gen.Fn
+theorem C10.src_gift_nibble_ror_2_eq (x : BitVec 32) :
+    gift_nibble_ror_2 x = BC.Gift.nibbleRor2 x :=
+  _root_.BC.GenFuncs.Gift.nibble_ror_2_eq x
+end BC.GenFuncs.Gift
+
+namespace BC.GenFuncs.Gift
+open BC.Gen.Fn
+theorem C10.src_gift_nibble_ror_3_eq (x : BitVec 32) :
+    gift_nibble_ror_3 x = BC.Gift.nibbleRor3 x :=
+  _root_.BC.GenFuncs.Gift.nibble_ror_3_eq x
+end BC.GenFuncs.Gift
+
+namespace BC.GenFuncs.Gift
+open BC.Gen.Fn
+theorem C10.src_gift_rearrange_rkey_0_eq (x : BitVec 32) :
+    gift_rearrange_rkey_0 x = BC.Gift.rearrangeRkey0 x :=
+  _root_.BC.GenFuncs.Gift.rearrange_rkey_0_eq x
+end BC.GenFuncs.Gift
+
+namespace BC.GenFuncs.Gift
+open BC.Gen.Fn
+theorem C10.src_gift_rearrange_rkey_1_eq (x : BitVec 32) :
+    gift_rearrange_rkey_1 x = BC.Gift.rearrangeRkey1 x :=
+  _root_.BC.GenFuncs.Gift.rearrange_rkey_1_eq x
+end BC.GenFuncs.Gift
+
+namespace BC.GenFuncs.Gift
+open BC.Gen.Fn
+theorem C10.src_gift_rearrange_rkey_2_eq (x : BitVec 32) :
+    gift_rearrange_rkey_2 x = BC.Gift.rearrangeRkey2 x :=
+  _root_.BC.GenFuncs.Gift.rearrange_rkey_2_eq x
+end BC.GenFuncs.Gift
+
+namespace BC.GenFuncs.Gift
+open BC.Gen.Fn
+theorem C10.src_gift_rearrange_rkey_3_eq (x : BitVec 32) :
+    gift_rearrange_rkey_3 x = BC.Gift.rearrangeRkey3 x :=
+  _root_.BC.GenFuncs.Gift.rearrange_rkey_3_eq x
+end BC.GenFuncs.Gift
+
+namespace BC.GenFuncs.Gift
+open BC.Gen.Fn
+theorem C10.src_gift_key_update_eq (x : BitVec 32) :
+    gift_key_update x = BC.Gift.keyUpdate x :=
+  _root_.BC.GenFuncs.Gift.key_update_eq x
+end BC.GenFuncs.Gift
+
+namespace BC.GenFuncs.Gift
+open BC.Gen.Fn
+theorem C10.src_gift_key_triple_update_0_eq (x : BitVec 32) :
+    gift_key_triple_update_0 x = BC.Gift.keyTripleUpdate0 x :=
+  _root_.BC.GenFuncs.Gift.key_triple_update_0_eq x
+end BC.GenFuncs.Gift
+
+namespace BC.GenFuncs.Gift
+open BC.Gen.Fn
+theorem C10.src_gift_key_double_update_1_eq (x : BitVec 32) :
+    gift_key_double_update_1 x = BC.Gift.keyDoubleUpdate1 x :=
+  _root_.BC.GenFuncs.Gift.key_double_update_1_eq x
+end BC.GenFuncs.Gift
+
+namespace BC.GenFuncs.Gift
+open BC.Gen.Fn
+theorem C10.src_gift_key_triple_update_1_eq (x : BitVec 32) :
+    gift_key_triple_update_1 x = BC.Gift.keyTripleUpdate1 x :=
+  _root_.BC.GenFuncs.Gift.key_triple_update_1_eq x
+end BC.GenFuncs.Gift
+
+namespace BC.GenFuncs.Gift
+open BC.Gen.Fn
+theorem C10.src_gift_key_double_update_2_eq (x : BitVec 32) :
+    gift_key_double_update_2 x = BC.Gift.keyDoubleUpdate2 x :=
+  _root_.BC.GenFuncs.Gift.key_double_update_2_eq x
+end BC.GenFuncs.Gift
+
+namespace BC.GenFuncs.Gift
+open BC.Gen.Fn
+theorem C10.src_gift_key_triple_update_2_eq (x : BitVec 32) :
+    gift_key_triple_update_2 x = BC.Gift.keyTripleUpdate2 x :=
+  _root_.BC.GenFuncs.Gift.key_triple_update_2_eq x
+end BC.GenFuncs.Gift
+
+namespace BC.GenFuncs.Gift
+open BC.Gen.Fn
+theorem C10.src_gift_key_double_update_3_eq (x : BitVec 32) :
+    gift_key_double_update_3 x = BC.Gift.keyDoubleUpdate3 x :=
+  _root_.BC.GenFuncs.Gift.key_double_update_3_eq x
+end BC.GenFuncs.Gift
+
+namespace BC.GenFuncs.Gift
+open BC.Gen.Fn
+theorem C10.src_gift_key_triple_update_3_eq (x : BitVec 32) :
+    gift_key_triple_update_3 x = BC.Gift.keyTripleUpdate3 x :=
+  _root_.BC.GenFuncs.Gift.key_triple_update_3_eq x
+end BC.GenFuncs.Gift
+
+namespace BC.GenFuncs.Gift
+open BC.Gen.Fn
+theorem C10.src_gift_key_double_update_4_eq (x : BitVec 32) :
+    gift_key_double_update_4 x = BC.Gift.keyDoubleUpdate4 x :=
+  _root_.BC.GenFuncs.Gift.key_double_update_4_eq x
+end BC.GenFuncs.Gift
+
+namespace BC.GenFuncs.Gift
+open BC.Gen.Fn
+theorem C10.src_gift_key_triple_update_4_eq (x : BitVec 32) :
+    gift_key_triple_update_4 x = BC.Gift.keyTripleUpdate4 x :=
+  _root_.BC.GenFuncs.Gift.key_triple_update_4_eq x
+end BC.GenFuncs.Gift
+
+namespace BC.GenFuncs.Gift
+open BC.Gen.Fn
+theorem C10.src_gift_sbox_eq (a b c d : BitVec 32) :
+    gift_sbox a b c d = tup (BC.Gift.sbox a b c d) :=
+  _root_.BC.GenFuncs.Gift.sbox_eq a b c d
+end BC.GenFuncs.Gift
+
+namespace BC.GenFuncs.Gift
+open BC.Gen.Fn
+theorem C10.src_gift_inv_sbox_eq (a b c d : BitVec 32) :
+    gift_inv_sbox a b c d = tup (BC.Gift.invSbox a b c d) :=
+  _root_.BC.GenFuncs.Gift.inv_sbox_eq a b c d
+end BC.GenFuncs.Gift
+
+namespace BC.GenFuncs.Gift
+open BC.Gen.Fn
+theorem C10.src_gift_packing_eq (x : BitVec 128) :
+    gift_packing x = tup (BC.Gift.packing x) :=
+  _root_.BC.GenFuncs.Gift.packing_eq x
+end BC.GenFuncs.Gift
+
+namespace BC.GenFuncs.Gift
+open BC.Gen.Fn
+theorem C10.src_gift_unpacking_eq (s : BC.Gift.St) :
+    gift_unpacking s.s0 s.s1 s.s2 s.s3 = BC.Gift.unpacking s :=
+  _root_.BC.GenFuncs.Gift.unpacking_eq s
+end BC.GenFuncs.Gift
+
+namespace BC.GenFuncs.Gift
+open BC.Gen.Fn
+theorem C10.src_gift_quintuple_round_eq (s : BC.Gift.St) (k0 k1 k2 k3 k4 k5 k6 k7 k8 k9 c0 c1 c2 c3 c4 : BitVec 32) :
+    gift_quintuple_round s.s0 s.s1 s.s2 s.s3 k0 k1 k2 k3 k4 k5 k6 k7 k8 k9 c0 c1 c2 c3 c4 = tup (BC.Gift.quintupleCore s ⟨k0, k1, k2, k3, k4, k5, k6, k7, k8, k9, c0, c1, c2, c3, c4⟩) :=
+  _root_.BC.GenFuncs.Gift.quintuple_round_eq s k0 k1 k2 k3 k4 k5 k6 k7 k8 k9 c0 c1 c2 c3 c4
+end BC.GenFuncs.Gift
+
+namespace BC.GenFuncs.Gift
+open BC.Gen.Fn
+theorem C10.src_gift_inv_quintuple_round_eq (s : BC.Gift.St) (k0 k1 k2 k3 k4 k5 k6 k7 k8 k9 c0 c1 c2 c3 c4 : BitVec 32) :
+    gift_inv_quintuple_round s.s0 s.s1 s.s2 s.s3 k0 k1 k2 k3 k4 k5 k6 k7 k8 k9 c0 c1 c2 c3 c4 = tup (BC.Gift.invQuintupleCore s ⟨k0, k1, k2, k3, k4, k5, k6, k7, k8, k9, c0, c1, c2, c3, c4⟩) :=
+  _root_.BC.GenFuncs.Gift.inv_quintuple_round_eq s k0 k1 k2 k3 k4 k5 k6 k7 k8 k9 c0 c1 c2 c3 c4
+end BC.GenFuncs.Gift
+
+namespace BC.GenFuncs.Threefish
+open BC.Gen.Fn
+theorem C10.src_threefish_mix_eq (r : BitVec 8) (x0 x1 : BitVec 64) :
+    threefish_mix r x0 x1 = BC.Threefish.mix r x0 x1 :=
+  _root_.BC.GenFuncs.Threefish.mix_eq r x0 x1
+end BC.GenFuncs.Threefish
+
+namespace BC.GenFuncs.Threefish
+open BC.Gen.Fn
+theorem C10.src_threefish_inv_mix_eq (r : BitVec 8) (y0 y1 : BitVec 64) :
+    threefish_inv_mix r y0 y1 = BC.Threefish.invMix r y0 y1 :=
+  _root_.BC.GenFuncs.Threefish.inv_mix_eq r y0 y1
+end BC.GenFuncs.Threefish
 
 namespace BC.Gift.Conf
 open BC.Gift
